@@ -1113,7 +1113,11 @@ theorem prepare_inv {m : Mdl} {rmin rmax : Rat} {t t0 : Tree} {op : Op} {H iters
       · simp at hp
         obtain ⟨rfl, rfl, rfl⟩ := hp
         exact ⟨Inv.fresh m rmin rmax parts nA _, le_refl _, rfl, rfl⟩
-    · simp at hp
+    · split at hp
+      · simp at hp
+        obtain ⟨rfl, rfl, rfl⟩ := hp
+        exact ⟨Inv.fresh m rmin rmax parts nA _, le_refl _, rfl, rfl⟩
+      · simp at hp
 
 /-- **one public call** (`sampleAction` in either form) on any logged run: the invariant is kept, the log splits
     into exactly `iterations` simulations and each of them makes at most `horizon + overrun` calls of the
@@ -1343,7 +1347,11 @@ theorem call_budget_le {m : Mdl} {rmin rmax : Rat} {t t' : Tree} {op : Op} {log 
           · simp at hp
             obtain ⟨rfl, _, _⟩ := hp
             simp [Tree.fresh, Op.H]
-        · simp at hp
+        · split at hp
+          · simp at hp
+            obtain ⟨rfl, _, _⟩ := hp
+            simp [Tree.fresh, Op.H]
+          · simp at hp
     split at hc
     · simp at hc
       obtain ⟨rfl, _⟩ := hc
@@ -1387,14 +1395,14 @@ theorem v_in_return_range_history {m : Mdl} {rmin rmax : Rat} (hb : Bnd m rmin r
 /-- **advance_keeps_subtree.**  The tree the simulations of `sampleAction(a, key, horizon)` start from is either
     exactly the `(a, key)` subtree of the old tree (every count, value, particle list and descendant, re-rooted; the
     root's action nodes are allocated if it had none) or a clean fresh root — the latter exactly when that child
-    does not exist (or, POMCP, holds no particle). -/
+    does not exist (or, POMCP, holds no particle), or (guarded source) the root has no action node `a` at all. -/
 theorem advance_keeps_subtree {m : Mdl} {t t0 : Tree} {a k : Nat} {parts : List Nat} {nA H iters H' iters' : Nat}
     (hp : prepare m t (Op.adv a k parts nA H iters) = some (t0, H', iters')) :
     (t.ex [(a, k)] = true ∧ (∀ q, t0.ex q = t.ex ((a, k) :: q) ∧ t0.nN q = t.nN ((a, k) :: q) ∧
         t0.parts q = t.parts ((a, k) :: q) ∧ t0.aN q = t.aN ((a, k) :: q) ∧ t0.aV q = t.aV ((a, k) :: q) ∧
         t0.rets q = t.rets ((a, k) :: q) ∧
         (t0.nA q = t.nA ((a, k) :: q) ∨ (q = [] ∧ t.nA [(a, k)] = 0 ∧ t0.nA [] = nA))))
-    ∨ ((t.ex [(a, k)] = false ∨ (m.pomcp = true ∧ t.parts [(a, k)] = [])) ∧ t0 = Tree.fresh parts nA (H + m.overrun)) := by
+    ∨ ((t.nA [] ≤ a ∨ t.ex [(a, k)] = false ∨ (m.pomcp = true ∧ t.parts [(a, k)] = [])) ∧ t0 = Tree.fresh parts nA (H + m.overrun)) := by
   simp only [prepare] at hp
   split at hp
   · split at hp
@@ -1422,14 +1430,19 @@ theorem advance_keeps_subtree {m : Mdl} {t t0 : Tree} {a k : Nat} {parts : List 
       simp at hp
       obtain ⟨rfl, _, _⟩ := hp
       right
-      refine ⟨?_, rfl⟩
+      refine ⟨Or.inr ?_, rfl⟩
       by_cases hex : t.ex [(a, k)] = true
       · right
         by_cases hpe : (m.pomcp && (t.parts [(a, k)]).isEmpty) = true
         · simpa [Bool.and_eq_true, List.isEmpty_iff] using hpe
         · exfalso; apply hc; simp [hex, hpe]
       · left; simpa using hex
-  · simp at hp
+  · rename_i hlt
+    split at hp
+    · simp at hp
+      obtain ⟨rfl, _, _⟩ := hp
+      right; exact ⟨Or.inl (by omega), rfl⟩
+    · simp at hp
 
 /-- a state follows the history `q` from the root particles: there is a path of possible transitions of the
     generative model whose actions and observations (MCTS: next states) are those of `q` -/
@@ -1973,7 +1986,8 @@ theorem rsim_spec (m : Mdl) (H k : Nat) : ∀ (fuel : Nat) (t : RTree) (p : Path
               show upd (rdown m t p st).1.nN _ _ q = _
               simp only [upd, hqc, if_false]; rw [d1]; simp [upd, hne]
             · have h1 := hdown pend hI
-              have h2 : RCnt (upd pend p (pend p + 1)) (rleaf (rdown m t p st).1 (p ++ [(st.a, st.o)])) := by
+              have h2 : RCnt (upd pend p (pend p + 1)) (rleaf (rdown m t p st).1 (p ++ [(st.a, st.o)]) m.rLeafV
+                  (if depth + 1 < H then 0 else (rdown m t p st).1.km (p ++ [(st.a, st.o)]))) := by
                 refine ⟨fun q => ?_, fun q a hqa => h1.out q a hqa⟩
                 have hc := h1.cnt q
                 show upd (rdown m t p st).1.nN (p ++ [(st.a, st.o)]) ((rdown m t p st).1.nN (p ++ [(st.a, st.o)]) + 1) q
@@ -2141,7 +2155,8 @@ theorem rsim_mean (m : Mdl) (H k : Nat) : ∀ (fuel : Nat) (t : RTree) (p : Path
               exact (ih _ _ _ _ _ _ _ _ hr (hd.of_eq a1 a2 a3)).rup m k p st.a depth imm
           · simp at hr
             obtain ⟨rfl, _, rfl⟩ := hr
-            exact (hd.of_eq (t1 := rleaf (rdown m t p st).1 (p ++ [(st.a, st.o)])) rfl rfl rfl).rup m k p st.a depth _
+            exact (hd.of_eq (t1 := rleaf (rdown m t p st).1 (p ++ [(st.a, st.o)]) m.rLeafV
+              (if depth + 1 < H then 0 else (rdown m t p st).1.km (p ++ [(st.a, st.o)]))) rfl rfl rfl).rup m k p st.a depth _
       · simp at h
 
 theorem rrunSims_mean (m : Mdl) (H k : Nat) : ∀ (n : Nat) (t : RTree) (log : List Step) (t' : RTree) (rest : List Step),
@@ -2170,7 +2185,8 @@ theorem RMean.reroot {t : RTree} (h : RMean t) (k : Key) : RMean (t.reroot k) :=
 
 /-- trees reachable by any history of public rPOMCP calls -/
 inductive RReach (m : Mdl) (k : Nat) : RTree → Prop
-  | init : RReach m k (RTree.fresh [] 0)
+  /-- the constructor builds a head node with `A` action nodes and no particles -/
+  | init (nA : Nat) : RReach m k (RTree.fresh [] nA)
   | call (t t' : RTree) (op : Op) (log rest : List Step) : RReach m k t → rcall m k t op log = some (t', rest) → RReach m k t'
 
 theorem rprepare_mean {t t0 : RTree} {op : Op} {H iters : Nat} (h : RMean t) (hp : rprepare t op = some (t0, H, iters)) : RMean t0 := by
@@ -2201,7 +2217,7 @@ theorem v_is_mean {m : Mdl} {k : Nat} {t : RTree} (h : RReach m k t) (q : Path) 
     t.aN q a = (t.dps q a).length ∧ t.aV q a = mean (t.dps q a) := by
   have hI : RMean t := by
     induction h with
-    | init => exact RMean.fresh [] 0
+    | init nA => exact RMean.fresh [] nA
     | call t t' op log rest _ hc ih =>
       unfold rcall at hc
       split at hc
